@@ -81,6 +81,11 @@ def api_systems(rng, quick):
                 coefs.append(sum(abs(c) for _, c in pr))
                 lines.append("shell %d %d %d %s" % (a, l, np_, " ".join("%r %r" % p for p in pr)))
         prims = [(rng.choice([0, 1, 2]), l, 10 ** rng.uniform(-1.3, 1), rng.choice([-1, 1]) * rng.uniform(0.5, 8.0)) for l in range(rng.randint(1, 3) + 1)]
+        if len(out) % 2 == 0:
+            # as the shipped library lists them: the local part (highest l) FIRST, and tighter than the projectors - the order in which the
+            # primitives arrive must not matter to the smallest exponent the distance screen uses
+            top = prims[-1]
+            prims = [(top[0], top[1], top[2] * 10.0 + 2.0, top[3])] + prims[:-1]
         lines.append("ecp 0 %d %s" % (len(prims), " ".join("%d %d %r %r" % p for p in prims)))
         out.append((lines, max(coefs) ** 2 * sum(abs(p[3]) for p in prims)))
     return out
